@@ -190,12 +190,18 @@ def work_content(job):
 
 # ---------------------------------------------------------------------------------------------- part B
 class PB(explore.Problem):
-    def __init__(self, fam, fmt, cycles, values, tmp):
+    def __init__(self, fam, fmt, cycles, values, tmp, members=True):
         self.fam, self.fmt, self.cycles, self.tmp = fam, fmt, cycles, tmp
         self.spec = fam['spec']
         if cycles:
             self.spec = dict(self.spec, calc={'iterate': True, 'count': 50, 'delta': 0.001})
-        self.targets = fam['cells'] + fam['ranges'] + fam['unbounded']
+        self.cells = list(fam['cells'])
+        if not members:
+            # array formulas are only reached through their range: the member cells are never brought into the model,
+            # so nothing saved refers to the array-formula range
+            plain = set(W.constant_cells(fam['spec'])) | set(W.formula_cells(fam['spec'])) | set(fam['inputs'])
+            self.cells = [c for c in fam['cells'] if c in plain]
+        self.targets = self.cells + fam['ranges'] + fam['unbounded']
         self.ops = [('ev', a) for a in self.targets] + [('set', i, v) for i in fam['inputs'] for v in values]
         self.path = None
         self.compared = 0
@@ -204,7 +210,7 @@ class PB(explore.Problem):
 
     def build(self):
         m = W.compile_inmem(self.spec, cycles=True if self.cycles else None)
-        for a in self.fam['cells']:
+        for a in self.cells + (self.fam['ranges'] if len(self.cells) != len(self.fam['cells']) else []):
             ev(m, a)
         return m
 
@@ -245,16 +251,18 @@ class PB(explore.Problem):
 
     def case(self, hist, op, obs):
         return dict(kind='lockstep', part='B', verdict='differs', fmt=self.fmt, cycles=self.cycles, item=self.fam['name'],
+                    members=len(self.cells) == len(self.fam['cells']),
                     fam={k: self.fam[k] for k in ('name', 'spec', 'ranges', 'unbounded', 'inputs', 'cells')},
                     hist=[list(o) for o in hist], op=list(op), observed=jsonable(obs))
 
 
 def work_lockstep(job):
-    fam, fmt, cycles, values, depth, max_states = job
+    fam, fmt, cycles, values, depth, max_states = job[:6]
+    members = job[6] if len(job) > 6 else True
     acc = Acc()
     tmp = tempfile.mkdtemp(prefix='c03b_')
     try:
-        p = PB(fam, fmt, cycles, values, tmp)
+        p = PB(fam, fmt, cycles, values, tmp, members)
         res = explore.bfs(p, depth, acc, max_states=max_states)
         acc.add('states', res['states'])
         acc.add('transitions', res['transitions'])
@@ -499,6 +507,9 @@ def run(ctx):
                 jobs.append((f, fmt, cyc, vals, 3 if ctx.thorough or fmt in ('yml', 'pkl') else 2, 12000))
         if not ctx.thorough:
             jobs.append((f, 'yml', True, vals[:2], 2, 12000))
+        if 'cse' in f.get('tags', ()):
+            for fmt in ('yml', 'json', 'pkl'):
+                jobs.append((f, fmt, False, vals[:2], 3, 12000, False))
     ctx.pmap(work_lockstep, jobs, timeout=3000)
     # C
     ctx.pmap(work_rules, [(f, cyc) for f in fams for cyc in (False, True)], timeout=1200)
@@ -529,7 +540,7 @@ def replay(case):
     elif case['part'] == 'B':
         tmp = tempfile.mkdtemp(prefix='c03r_')
         try:
-            p = PB(case['fam'], case['fmt'], case['cycles'], [], tmp)
+            p = PB(case['fam'], case['fmt'], case['cycles'], [], tmp, case.get('members', True))
             st = p.new()
             lines = []
             for o in [tuple(x) for x in case['hist']]:
